@@ -1458,7 +1458,7 @@ def c16(ctx):
                     elif rc < 0 and (-rc) not in (23, 26) and flags != "000": bad = "flag set although the address is syntactically invalid"
                     elif t == 0 and rc > 0: bad = "TLD class reported with TLD checking off"
                     elif rc > 9: bad = "result code above the TLD classes"
-                    if (v == "extra" or v.endswith("+extra")) and not bad:
+                    if (v == "extra" or v.endswith("+extra") or v.startswith("extra+")) and not bad:
                         lp, dm = f[4], f[5]
                         if rc >= 0:
                             want_d = D[1:-1] if D.startswith(b"[") else D
